@@ -45,11 +45,33 @@ def _ffp_call(ctx):
     return f, st, amap
 
 
+def find_integrator(ctx, entry_qual):
+    """the function that holds the loop over self.image_iter(): the entry point itself or a helper
+    method reachable from it through self-calls"""
+    m = ctx.model
+    prog = ctx.program
+    entry = m.func(entry_qual)
+    seen = prog.closure([entry], edge_filter=lambda e: e.kind == 'call' and e.callee.cls is entry.cls)
+    cands = []
+    for q in seen:
+        g = m.funcs[q]
+        if any(isinstance(l, ast.For) and norm(l.iter) == 'self.image_iter()' for l in loops_in(g.node)):
+            cands.append(g)
+    return cands
+
+
 def check_dbi_normalisation(ctx, ck, rule='R-DEP.dbi-normalised'):
     f, st, amap = _ffp_call(ctx)
     fl = ctx.flow(f)
     nid = fl.node_id_of(st)
+    from ..dataflow import expand_call_roots
     r = fl.roots(amap['gain'], nid)
+    for _ in range(2):
+        for x in list(r):
+            if x[0] == 'attr' and x[1].startswith('self.') and x[1].count('.') == 1:
+                for a_ in assigns_to_attr(f, x[1]):
+                    r |= fl.roots(a_.value, fl.node_id_of(a_))
+    r = expand_call_roots(ctx, f, r)
     banned = {('param', 'pwr'), ('param', 'dist'), ('attr', 'self.ff_power'),
               ('attr', 'self.ff_dist'), ('attr', 'self.nf_power')}
     # any parameter other than the angle objects is banned as well
@@ -288,18 +310,61 @@ def run(ctx, ck):
             else:
                 why = 'k9 = %s (expected literal / self.power)' % norm(kd[0])
         ck.ob('R-LIT.k9-g0', FAR + '|k9*2*g0', ok, f.loc(sn), why)
-    # both field sums carry the factor g0
-    for pol, nm in names.items():
+    # both field sums carry the factor g0 (the definition may live in the helper that computes the
+    # radiation integral: follow `a, b = self.helper(...)` / a cached tuple of it)
+    def primary_def(nm):
         ds = [d for d in fl.def_exprs(nm, nid) if d[0] == 'assign' and
               not any(isinstance(x, ast.Name) and x.id == nm for x in ast.walk(d[1]))]
-        ok = False
-        why = 'no plain definition'
         if len(ds) == 1:
-            pr = product_of(ds[0][1])
-            nn = [t for t, _ in pr.num]
-            ok = 'self.g0' in nn and not pr.den and abs(abs(pr.coef) - 1) < 1e-12
-            why = '%s = %s' % (nm, norm(ds[0][1])[:90])
-        ck.ob('R-LIT.k9-g0', FAR + '|g0-factor|' + pol, ok, f.loc(st), why)
+            return f, ds[0][1]
+        un = [d for d in fl.def_exprs(nm, nid) if d[0] == 'unpack']
+        if len(un) == 1:
+            src = un[0][1]
+            idx = un[0][3] if len(un[0]) > 3 else None
+            calls_ = [c for c in ast.walk(src) if isinstance(c, ast.Call) and isinstance(c.func, ast.Attribute)
+                      and isinstance(c.func.value, ast.Name) and c.func.value.id == 'self']
+            off = 0
+            if not calls_:
+                # through an attribute:  self.cache = (key,) + self.helper(...)  ;  a, b = self.cache[1:]
+                base = src
+                while isinstance(base, ast.Subscript):
+                    if isinstance(base.slice, ast.Slice) and isinstance(base.slice.lower, ast.Constant):
+                        off = base.slice.lower.value
+                    base = base.value
+                d_ = dotted(base)
+                if d_ and d_.startswith('self.'):
+                    for a_ in assigns_to_attr(f, d_):
+                        for c in ast.walk(a_.value):
+                            if isinstance(c, ast.Call) and isinstance(c.func, ast.Attribute) and \
+                               isinstance(c.func.value, ast.Name) and c.func.value.id == 'self':
+                                calls_.append(c)
+                                lead = a_.value.left if isinstance(a_.value, ast.BinOp) else None
+                                if isinstance(lead, ast.Tuple):
+                                    off -= len(lead.elts)
+            if len(calls_) == 1 and idx is not None:
+                g_ = m.resolve_method(f.cls.name, calls_[0].func.attr)
+                if g_ is not None:
+                    rets = [r_ for r_ in walk_no_nested(g_.node) if isinstance(r_, ast.Return)]
+                    if len(rets) == 1 and isinstance(rets[0].value, ast.Tuple):
+                        k_ = idx + off
+                        if 0 <= k_ < len(rets[0].value.elts):
+                            e_ = rets[0].value.elts[k_]
+                            gfl_ = ctx.flow(g_)
+                            if isinstance(e_, ast.Name):
+                                dd = [d for d in gfl_.def_exprs(e_.id, gfl_.node_id_of(rets[0])) if d[0] == 'assign'
+                                      and not any(isinstance(x, ast.Name) and x.id == e_.id for x in ast.walk(d[1]))]
+                                if len(dd) == 1:
+                                    return g_, dd[0][1]
+                            else:
+                                return g_, e_
+        raise AnalysisError('definition of the field array %s not found (neither in compute_far_field nor '
+                            'in a helper it unpacks from)' % nm)
+    for pol, nm in names.items():
+        df, de = primary_def(nm)
+        pr = product_of(de)
+        nn = [t for t, _ in pr.num]
+        ok = 'self.g0' in nn and not pr.den and abs(abs(pr.coef) - 1) < 1e-12
+        ck.ob('R-LIT.k9-g0', FAR + '|g0-factor|' + pol, ok, df.loc(de), '%s = %s' % (nm, norm(de)[:90]))
     # dB conversion: weak (masked) definitions of the gain array
     conv = [d for d in fl.def_exprs(gname, nid) if d[0] == 'weak']
     ck.floor('masked dB conversion stores', len(conv), 1)
@@ -319,32 +384,32 @@ def run(ctx, ck):
         ck.ob('R-LIT.k9-g0', FAR + '|dB=10log10', ok, f.loc(fl.cfg.nodes[d[2]].stmt), form)
 
     # ---------------------------------------------------------------- D4
-    # accumulation into the field sum in every (image, azimuth) iteration
-    sums = set()
-    for pol, nm in names.items():
-        for d in fl.def_exprs(nm, nid):
-            if d[0] == 'assign':
-                for x in ast.walk(d[1]):
-                    if isinstance(x, ast.Name) and isinstance(x.ctx, ast.Load) and \
-                       any(w[0] == x.id for ws in fl.rd.weak.values() for w in ws):
-                        sums.add(x.id)
-    ck.info('field_sum_arrays', sorted(sums))
-    if not sums:
-        raise AnalysisError('field accumulation array not found')
-    img_loops = [l for l in loops_in(f.node) if isinstance(l, ast.For) and
-                 norm(l.iter) == 'self.image_iter()']
-    ck.floor('image loops in compute_far_field', len(img_loops), 1)
-    for l in img_loops:
-        inner = [x for x in loops_in(l) if isinstance(x, ast.For)]
-        ck.floor('azimuth loops inside image loop', len(inner), 1)
-        for il in inner:
-            def is_acc(n):
-                s = n.stmt
-                return n.kind == 'stmt' and isinstance(s, ast.AugAssign) and isinstance(s.op, ast.Add) \
-                    and base_name(s.target) in sums
-            mn, mx = loop_reaches_on_all_paths(fl, il, is_acc)
-            ck.ob('R-EXH.accumulate', FAR + '|accumulate-per-(image,azimuth)', (mn, mx) == (1, 1),
-                  f.loc(il), 'accumulations per iteration: min %s max %s' % (mn, mx))
+    # accumulation into the field sum in every (image, azimuth) iteration (in compute_far_field or
+    # in the helper it delegates the radiation integral to)
+    integ = find_integrator(ctx, FAR)
+    ck.ob('R-EXH.accumulate', FAR + '|integrator', len(integ) == 1, f.loc(),
+          'radiation integral with image loop in %s' % [g_.qual for g_ in integ])
+    for g_ in integ:
+        gfl_ = ctx.flow(g_)
+        img_loops = [l for l in loops_in(g_.node) if isinstance(l, ast.For) and
+                     norm(l.iter) == 'self.image_iter()']
+        for l in img_loops:
+            inner = [x for x in loops_in(l) if isinstance(x, ast.For)]
+            ck.floor('azimuth loops inside image loop', len(inner), 1)
+            body_ids = gfl_.cfg.loops[gfl_.cfg.node_of(l)][0]
+            for il in inner:
+                def is_acc(n):
+                    s_ = n.stmt
+                    if not (n.kind == 'stmt' and isinstance(s_, ast.AugAssign) and isinstance(s_.op, ast.Add)):
+                        return False
+                    bn = base_name(s_.target)
+                    if bn is None or bn not in gfl_.rd.names:
+                        return False
+                    defs = [d for d in gfl_.def_exprs(bn, gfl_.cfg.node_of(l)) if d[0] == 'assign']
+                    return bool(defs) and all(d[2] not in body_ids for d in defs)
+                mn, mx = loop_reaches_on_all_paths(gfl_, il, is_acc)
+                ck.ob('R-EXH.accumulate', g_.qual + '|accumulate-per-(image,azimuth)', (mn, mx) == (1, 1),
+                      g_.loc(il), 'accumulations per iteration: min %s max %s' % (mn, mx))
     # row writers
     for q, nfields in (('mininec.Far_Field_Pattern.db_as_mininec', 5),
                        ('mininec.Far_Field_Pattern.abs_gain_as_mininec', 6)):
@@ -371,5 +436,15 @@ def run(ctx, ck):
     ok = len(unp) == 1 and len(unp[0].targets[0].elts) == 3
     ck.ob('R-SIB.polarisations', g.qual + '|three-columns', ok, g.loc(unp[0] if unp else None),
           'gain unpacked into 3 columns in stacking order (vertical, horizontal, total)')
+    # a far-field request must not depend on earlier requests: memo sites in the far-field closure
+    from .C14 import run_cache_rule
+    from ..cache import find_memo_sites
+    prog = ctx.program
+    far_cl = prog.closure([f])
+    keys = {s_.key for s_ in find_memo_sites(m) if s_.func.qual in far_cl}
+    ck.rule('R-CACHE.owner-only', 'memo sites in the far-field closure cache owner/key-only values')
+    ck.rule('R-CACHE.no-inplace', 'values read from a cache are not updated in place')
+    run_cache_rule(ctx, ck, only=keys)
+    ck.info('memo_sites_in_far_field_closure', len(keys))
     ck.undecided += ['agreement with the radiation integral (1e-4 / 2 %)', '360-degree periodicity',
                      'zenith gain independent of azimuth']
